@@ -346,6 +346,29 @@ def _run_server(case, bits, other, mode, coroutine, w):
                   'star')
     else:
         _check(v, w, n0, 'star-event', tgt2, ns, '*', 's', [sid, 7])
+    if not (bits | late_bits[0]) & (2 | 8 | 16 | 32):
+        # an event without any target is dropped; then a class-based
+        # namespace that handles it is registered, and it arrives again
+        n0 = len(w.rec.events)
+        peer.send_pkt(sio.EVENT, ns, None, ['lateclass', 1])
+        w.settle()
+        new = [e for e in w.rec.events[n0:] if e['kind'] == 'h_enter']
+        if new:
+            v.add('unhandled_event_not_dropped', [e['label'] for e in new],
+                  'lateclass')
+        key = ns if case['seed'] % 2 else '*'
+        base = socketio.AsyncNamespace if mode == 'async' \
+            else socketio.Namespace
+        srv.register_namespace(w.make_namespace(
+            key, ['lateclass'], plan, server='s', coroutine=coroutine,
+            base=base))
+        n0 = len(w.rec.events)
+        peer.send_pkt(sio.EVENT, ns, None, ['lateclass', 2])
+        w.settle()
+        _check(v, w, n0, 'late-class-namespace',
+               ('class', 'NS', 'EV', []) if key == ns else
+               ('class', '*', 'EV', ['ns']), ns, 'lateclass', 's',
+               [sid, 2])
     # disconnect (reserved), by one of the causes
     n0 = len(w.rec.events)
     end = case['end']
